@@ -12,6 +12,7 @@ EXPLANATION = (
     "gen_range(0..k). R18-only-stream-items: the only value ever stored is the `obj` argument of add, at most once per call; the "
     "fill phase appends (prefix order). R18-no-panic: the may-panic sites of add are exactly allow-listed arithmetic checks; every "
     "gen_range range is non-empty given k >= 1 (asserted in new; k is never written afterwards). Getters read the fields."
+    " Completeness: every path of add either appends or refutes i < k (no item of the fill phase is dropped). A float draw feeding ln(1 - x) must come from the half-open range. C19's clear rule is applied to the sampler."
 )
 NOT_DECIDED = "nothing of the validity clause; uniformity is C05"
 ASSUMPTIONS = ["rand::Rng::gen_range(a..b) returns a value in [a,b) and panics only on an empty range", "Vec::push appends one element; IndexMut on Vec panics only when out of range"]
